@@ -17,14 +17,23 @@ def gen_case(rng, tier):
     long_pool = HX.make_long_pool(rng) if rng.random() < 0.25 else None
     writes, m = HX.gen_writes(rng, rng.randint(1, 9 if tier == "quick" else 20), long_pool)
     prune = rng.random() < 0.3
-    qs = [None, b""] + HX.related_keys(m.keys()) + [HX.gen_key(rng, long_pool) for _ in range(3)] + [b"\xff\xff\xff\xff\xff"]
+    neigh = []
+    for k in m:
+        for i in range(len(k)):
+            for d in (1, -1, 0x10, -0x10):
+                b = k[i] + d
+                if 0 <= b <= 255:
+                    neigh.append(k[:i] + bytes([b]))             # diverges from a stored key at byte i, nothing after
+                    neigh.append(k[:i] + bytes([b]) + k[i + 1:])   # same length, one nibble up/down
+    rng.shuffle(neigh)
+    qs = [None, b""] + HX.related_keys(m.keys()) + neigh[:10] + [HX.gen_key(rng, long_pool) for _ in range(3)] + [b"\xff\xff\xff\xff\xff"]
     seen, queries = set(), []
     for q in qs:
         if q not in seen:
             seen.add(q)
             queries.append(q)
-    if len(queries) > (14 if tier == "quick" else 60):
-        queries = queries[:2] + rng.sample(queries[2:], 12 if tier == "quick" else 58)
+    if len(queries) > (22 if tier == "quick" else 80):
+        queries = queries[:2] + rng.sample(queries[2:], 20 if tier == "quick" else 78)
     return {"prune": prune, "writes": writes, "m": m, "queries": queries}
 
 
